@@ -220,9 +220,10 @@ PROPS = {
         "level_note": "The token-to-byte-length bookkeeping of TokenParser::rollback is compared, not proved.",
     },
     "C18": {
-        "disabled": True,
         "runner": "Run18",
-        "theorems": [],
+        "theorems": ["C18_silent_after_stop", "C18_stopped_is_sticky", "C18_output_plus_pending_is_text", "C18_stop_token_cut",
+                     "C18_partials_step", "C18_reported_match_is_a_match", "C18_no_match_missed", "C18_utf8_cut_bounds",
+                     "C18_failed_matcher_is_sticky", "C18_every_error_fails_the_matcher", "C18_out_of_range_token_refused"],
         "rule": "(a) stop controller: vocabularies with tokens splitting UTF-8 characters, special and empty tokens; 0-2 stop strings "
                 "(overlapping), optional stop regex, stop tokens; random segmentations of text containing stop candidates, one third "
                 "of the streams not valid UTF-8; compared with the model: total text (valid streams), stopped flag after every token; "
@@ -232,8 +233,88 @@ PROPS = {
         "trusted_base": ["modelled, not verified: stop_controller.rs (coq/StopCtrl.v: live partial matches instead of the derivre DFA with "
                          "lookahead), matcher.rs / tokenparser.rs stop logic (coq/TokParser.v); Constraint is not modelled (implementation-only)"],
         "assumptions": ["'first occurrence' = the first stop match to complete in the stream; when several end at the same byte the shortest is removed"],
-        "level_text": "see theorems in Properties/C18.v (stop controller) plus differential checks of the protocol",
-        "level_note": "Constraint-level protocol properties are checked differentially only.",
+        "level_text": "Theorems (stop controller model): nothing is returned after a stop and the stop is permanent; while running, returned "
+                      "text plus held-back text is exactly the decoded text; a stop token cuts exactly before itself; the set of live partial "
+                      "matches is exact for every stop expression, so a reported match is a real match ending at the current byte and none is "
+                      "missed; the UTF-8 cut stays inside the data. Theorems (matcher model): every error switches the matcher to a permanent "
+                      "failed state in which every call fails and nothing changes; out-of-range token ids are refused. The implementation is "
+                      "compared with the model on random streams and call sequences.",
+        "level_note": "Partial: the whole-run statement 'output = text before the first match' is assembled from the proved pieces only "
+                      "informally (no single theorem); Constraint-level protocol properties and 'stop exactly when complete and not "
+                      "extendable' are checked differentially against the CFG specification, not proved.",
+    },
+    "C08": {
+        "runner": "Run08",
+        "theorems": ["C08_integer_range_exact", "C08_integer_range_only_literals", "C08_empty_integer_range_rejected",
+                     "C08_fraction_at_least", "C08_fraction_at_most", "C08_multiple_of_lcm_exact", "C08_multiple_of_exact"],
+        "rule": "integer bounds: all pairs in a window exhaustively plus magnitudes around powers of ten and i64 extremes, with every "
+                "combination of minimum/maximum/exclusive*; decimal bounds with up to three fractional digits and magnitudes up to "
+                "1e15 (beyond that the f64 carrying the bound is not the written decimal); literals: integers and decimals in and "
+                "around the interval with 0-4 extra fractional digits and trailing zeros; through the single-byte Matcher. "
+                "Model side: the regex ASTs of the model of numeric.rs decide each literal. Implementation-only: exact decimal "
+                "arithmetic decides membership. non-trivial = ranges with both accepted and rejected literals",
+        "trusted_base": ["modelled, not verified: parser/src/json/numeric.rs rx_int_range, lexi_x_to_9, lexi_0_to_x, lexi_range, "
+                         "rx_float_range, Decimal::lcm (coq/Numeric.v, regex ASTs instead of regex strings; the regex text -> AST step "
+                         "is derivre/regex-syntax, tied by the comparison through the Matcher)",
+                         "json/compiler.rs number/integer -> regex plumbing and multipleOf (derivre's divisibility check) are covered by "
+                         "the implementation-only exact-arithmetic oracle, not modelled"],
+        "assumptions": ["bounds are i64 (integers) or decimals exactly representable after the f64 round trip (<= 1e15, <= 3 fractional digits)",
+                        "|z| < 10^80 for integer literals (model rendering fuel); longer literals are covered by C08_integer_range_only_literals' "
+                        "canonical form lemma only"],
+        "level_text": "Theorems: for every pair of optional i64 bounds the integer-range regex accepts an integer literal exactly when its "
+                      "value is inside, accepts nothing but integer literals, and is an error exactly for empty ranges; the two fraction "
+                      "comparisons from which decimal ranges are built are exact for every digit string (trailing zeros, shorter and longer "
+                      "than the bound); the multipleOf lcm (variant read from numeric.rs) is exact or an error.",
+        "level_note": "Partial: the assembly of rx_float_range from the fraction lemmas is checked differentially (model vs implementation "
+                      "on the grid), not proved as one theorem; multipleOf membership is implementation-only.",
+    },
+    "C15": {
+        "runner": "Run15",
+        "theorems": ["C15_optimize_preserves_language", "C15_one_pass_preserves_every_kept_symbol",
+                     "C15_special_symbols_are_kept", "C15_output_well_formed"],
+        "rule": "random and corpus grammars from the Lark and JSON front ends (alias chains and cycles, single-use rules, nested "
+                "inlining, captures, max_tokens, sub-grammars, empty rules); the hook (cfg llguidance_verif is not needed: "
+                "Grammar::optimize is reachable through the public compile path with and without optimisation) dumps the symbol "
+                "table before and after; the model's optimiser output is compared rule by rule, and the sets of terminal sequences "
+                "up to a length bound are compared before/after on the implementation. non-trivial = grammars in which a rule is inlined",
+        "trusted_base": ["modelled, not verified: parser/src/earley/grammar.rs Grammar::optimize / expand_shortcuts / rename / union-find "
+                         "(coq/Optimize.v), compared rule by rule with the implementation's output"],
+        "assumptions": ["input grammars are well formed (symbols in range, terminals without rules): what the grammar builder produces"],
+        "level_text": "Theorem: for every well-formed grammar the optimised grammar (two passes, as applied) derives from every special "
+                      "symbol — start, captures, token limits, sub-grammar boundaries — exactly the terminal sequences of the input; "
+                      "special symbols are never removed; one pass preserves the language of every symbol it keeps. Unbounded: any grammar "
+                      "size, any derivation length.",
+        "level_note": "Model hand-written from grammar.rs; the tie is the rule-by-rule comparison of optimiser outputs.",
+    },
+    "C20": {
+        "runner": "Run",
+        "extra_profiles": ["checked"],
+        "timeout": 3000,
+        "theorems": ["C20_no_internal_assertion_on_any_history", "C20_failed_engine_keeps_failing",
+                     "C20_no_result_after_internal_panic", "C20_token_id_out_of_range_refused",
+                     "C20_validate_out_of_range_refused", "C20_lcm_exact_or_error", "C20_wrapping_lcm_refuted",
+                     "C20_multiple_of_no_wrap", "C20_unguarded_multiple_of_refuted"],
+        "rule": "byte strings offered as Lark grammar / JSON schema / regex / slice list / vocabulary: random bytes, mutations of generated "
+                "grammars and schemas (byte flips, deletions, duplications, bracket floods, huge repetition counts), adversarial nesting "
+                "and sizes (paren depth, rule chains, (a*)* towers, thousands of alternatives, left recursion, allOf towers, $ref cycles, "
+                "multipleOf products beyond u32, extreme numeric bounds, 2^64 lengths, tokens of 1..3000 bytes, empty/duplicate tokens), "
+                "corpus first; each followed by 24 random API calls (mask, commit from mask, commit arbitrary id incl. out of range, "
+                "validate, rollback, ff bytes, accepting) under default and tight limits; executed in a child process with a 6 GB "
+                "address-space limit, an 8 MB stack and a per-input wall-clock limit; built as users build it (release) and with "
+                "overflow checks + debug assertions. Reported: process death, no answer in time, a panic message surfacing through "
+                "the API, an id >= vocab in a mask, a failed engine that stops failing. non-trivial = inputs that built an engine",
+        "trusted_base": ["runtime behaviour (aborts, stack depth, running time, memory) of the compiled Rust cannot be exhibited by the "
+                         "Gallina model: it is explored by the child-process harness only (sampled, not proved)",
+                         "modelled, not verified: the engine / matcher state machines (coq/Engine.v, TokParser.v), Decimal::lcm (coq/Numeric.v)"],
+        "assumptions": ["core fragment for the no-assertion theorem (core_ctx); limits of the sandbox: 6 GB, 8 MB stack, 15 s per input"],
+        "level_text": "Theorems about the logic: no history of legal calls reaches an internal assertion of the engine; the matcher never "
+                      "returns a result computed after an internal panic and a failed matcher fails every later call without changing "
+                      "state; out-of-range token ids are refused before any lookup; the multipleOf lcm never returns a wrapped product "
+                      "(variant read from the source; the wrapping variant is refuted). The crash/hang/abort half is explored by the "
+                      "child-process fuzzer in two build modes.",
+        "level_note": "Partial by nature: process aborts, stack overflows and unbounded loops in the compiled code are runtime behaviour; "
+                      "the theorems cover the modelled state machines, the harness samples the rest. Known finding: Lark rule chains of "
+                      "several thousand nested references overflow the stack in the compiler.",
     },
     "C13": {
         "runner": "RunEngine",
